@@ -59,6 +59,17 @@ CHECKS = {
         BASE_NOTE + 'Coq primitive floats (kernel primitives) are used by the float twin only; the rational/float gap is measured per run.',
         'DESIGN.md section 5 C17',
     ),
+    'C15': (
+        'Rocq proof (loop invariants of the name-matching loop, soundness/completeness of the indices, cast specification, matrix cell laws) + differential correspondence on Dense and Frame',
+        'Theorems (Properties/C15.v) for all query/entry name lists: accepted indices select exactly the query columns in query '
+        'order, the identical shortcut only for identical sequences, an entry lacking a required column is refused and one '
+        'carrying all of them (any permutation/superset) never is; each delivered column is the same-named entry column, cast to '
+        'the declared kind unless it already has it; take_rows/take_columns/to_columns obey cell-wise matrix semantics for any '
+        'index list. Correspondence: Reader.__call__ with Dense/Frame entries (permutations, extras anywhere, missing, casts) '
+        'and chained tabular operations incl. relabelled frames.',
+        BASE_NOTE + 'Values restricted to ints, canonical decimal strings, bools; numpy/pandas indexing is third-party.',
+        'DESIGN.md section 5 C15',
+    ),
 }
 NOT_YET = 'model and theorems not built yet in this round (planned, see DESIGN.md section 5/9)'
 
@@ -86,7 +97,7 @@ def main():
             'guard': 'FORML_VERIF',
             'enable': 'no hooks in /repo: every observation is made through public constructors, subclassing or harness-side stubs (FORML_VERIF=1 is exported by ./check but read by nothing in /repo)',
             'baseline_off_cmd': 'cd /repo && /venv/bin/python -m pytest -ra -q -p no:cacheprovider --timeout=900 --continue-on-collection-errors',
-            'source_commits': [],
+            'source_commits': [],  # no hook commits; fix: commits are listed in known_findings.json
             'add_only': True,
         },
         'engines': [
